@@ -575,17 +575,17 @@ Section Confined.
   Hypothesis Herr_plain : forall s, PresentLine.present_parse (errpage s) = Ok None.
 
   Lemma guarded_content_confined_lemma :
-    forall cache_on ims_on parse_ims refuses vary_tuple vary_header now ops,
-      Forall2 (reply_ok fs secret) ops
-        (run_g true true fs errpage cache_on ims_on parse_ims refuses vary_tuple vary_header [] now ops).
+    forall cache_on ims_on parse_ims prime refuses vary_tuple vary_header now ops,
+      Forall2 (reply_ok fs secret prime) ops
+        (run_g true true fs errpage cache_on ims_on parse_ims prime refuses vary_tuple vary_header [] now ops).
   Proof.
     intros. unfold run_g.
     pose proof (run_conf unit (compute_g true true fs errpage) cache_on ims_on parse_ims
-                  (sanitize_ok_g) (fun r => r) (negotiate_g errpage refuses) vary_tuple vary_header
+                  (sanitize_ok_g) prime (negotiate_g errpage refuses) vary_tuple vary_header
                   (contains_sub secret) (permitted fs)) as H.
     assert (Hall : forall ops' st now', CInv unit (compute_g true true fs errpage) (contains_sub secret) (fst st) ->
-              Forall2 (obs_ok (fun r => r) (contains_sub secret) (permitted fs)) ops'
-                (run unit (compute_g true true fs errpage) cache_on ims_on parse_ims sanitize_ok_g (fun r => r)
+              Forall2 (obs_ok prime (contains_sub secret) (permitted fs)) ops'
+                (run unit (compute_g true true fs errpage) cache_on ims_on parse_ims sanitize_ok_g prime
                      (negotiate_g errpage refuses) vary_tuple vary_header st now' ops')).
     { intros ops' st now' Hc. apply H; try assumption.
       - apply (bad_nil fs errpage secret Hfs Herr_clean).
@@ -634,7 +634,7 @@ Definition violates (fs : bytes -> option bytes) (secret : bytes) (ops : list op
   exists i r rp lg, nth_error ops i = Some (OReq r) /\ nth_error obs i = Some (ObReply rp lg) /\
                     leaks secret rp = true /\ ~ permitted fs r.
 
-Lemma violates_not_ok fs secret ops obs : violates fs secret ops obs -> ~ Forall2 (reply_ok fs secret) ops obs.
+Lemma violates_not_ok fs secret ops obs : violates fs secret ops obs -> ~ Forall2 (reply_ok fs secret (fun r => r)) ops obs.
 Proof.
   intros [i [r [rp [lg [Ho [Hb [Hl Hp]]]]]]] F. revert i Ho Hb.
   induction F as [|o ob ops obs Hok F IH]; intros [|i] Ho Hb; cbn [nth_error] in *; try discriminate.
@@ -659,7 +659,7 @@ Definition w_fs (t : bytes) : option bytes :=
 Definition w_err (s : N) : bytes := Eval vm_compute in B "<!DOCTYPE html><html><head><title>error</title></head></html>".
 Definition w_get (p : bytes) (addr : N) : op := OReq (mkReq M_GET p None [] addr).
 Definition w_run (fix_ext fix_lock cache_on : bool) (ops : list op) : list obs :=
-  run_g fix_ext fix_lock w_fs w_err cache_on true (fun _ => None) (fun _ _ => false) (fun _ => []) (fun _ _ => []) [] 0 ops.
+  run_g fix_ext fix_lock w_fs w_err cache_on true (fun _ => None) (fun r => r) (fun _ _ => false) (fun _ => []) (fun _ _ => []) [] 0 ops.
 
 Lemma w_hypotheses :
   (forall t c, w_fs t = Some c -> contains_sub W_SECRET c = true -> guarded t c = true) /\
@@ -717,14 +717,14 @@ Proof.
   split; [vm_compute; reflexivity|]. apply permitted_b_false. vm_compute. reflexivity.
 Qed.
 
-Lemma reply_ok_meaning_lemma fs secret r rp lg :
-  reply_ok fs secret (OReq r) (ObReply rp lg) ->
+Lemma reply_ok_meaning_lemma fs secret prime r0 rp lg :
+  reply_ok fs secret prime (OReq r0) (ObReply rp lg) -> let r := prime r0 in
   contains_sub secret (rp_body rp) = true \/ contains_sub secret (rp_identity rp) = true ->
   exists t c, served_file (rq_path r) = Ok (Some t) /\ fs t = Some c /\
               is_private t = false /\ has_name N_HIDE (entries_of c) = false /\
               has_name N_ALLOW (entries_of c) = true /\ listed (rq_addr r) (entries_of c) = true.
 Proof.
-  cbn [reply_ok]. intros H Hl.
+  unfold reply_ok. intros H. cbv zeta. intros Hl.
   assert (leaks secret rp = true) as L by (unfold leaks; apply orb_true_iff; exact Hl).
   destruct (H L) as [t [c [Es [Ef [Hh [Ha Hli]]]]]].
   unfold is_hidden in Hh. apply orb_false_iff in Hh as [H1 H2].
